@@ -264,6 +264,8 @@ def test_consult_groups():
     assert A("vn(1,2)") == []; n += 1
     e.consult(parse_program("vn(x, y)."))
     assert A("vn(A, B)") == ["(x, y)"]; n += 1           # exact arity definition wins
+    e.register_native("an", 2, facts_native([(var("_"), var("_"))]))
+    assert A("an(X, Y)") == ["(_G0, _G1)"]; n += 1       # every `_` of a row is its own variable
     e.register_native("p", 1, facts_native([(int_(7),)]))
     assert A("p(X)") == ["(7)"]; n += 1                  # registration replaces
     return n
@@ -293,6 +295,14 @@ def test_deep_and_limits():
     except RefLimit:
         n += 1
     assert len(e.answers(parse_goal("nat(X)"), max_answers=5)) == 5; n += 1
+    e.check_sto = True
+    assert e.answers(parse_goal("X = f(X), fail")) == [] and e.sto; n += 1     # cyclic binding is reported
+    assert len(e.answers(parse_goal("X = f(Y), Y = a"))) == 1 and not e.sto; n += 1
+    try:
+        e.answers(parse_goal("X = f(X)"))          # the answer itself is cyclic: cannot be written
+        assert False
+    except RefLimit:
+        n += 1
     try:
         e.answers(parse_goal("nat(X), fail"), depth_limit=50)
         assert False
